@@ -12,6 +12,13 @@ def _c(text, ref):
 
 
 CLAIMS = {
+    "C07": _c("Bounded symbolic model checking of the real subscribe() / map_source_to_response_event on a deterministic event loop: "
+              "0..3 source events with solver-chosen payload kinds (incl. payloads causing field errors and the event None), source "
+              "failure at any position, four kinds of source iterator, argument via variable, optional awaitable nested resolver "
+              "with symbolic completion decisions, and 7 ways of failing source creation. Assertions: exactly one response per "
+              "event, in order, each equal to the specification oracle's execution with the event as root value; failures surface "
+              "after earlier responses; a creation failure is a single errors-only result; nothing is left pending.",
+              "DESIGN.md section 7, C07"),
     "C03": _c("Bounded symbolic model checking of the real asynchronous executor on a deterministic event loop (vf.detloop): a "
               "symbolic bit per resolver position chooses value vs awaitable (also list items, is_type_of / resolve_type results and "
               "an async-generator-backed list), and the completion order of the pending awaitables is chosen by symbolic scheduler "
